@@ -622,6 +622,23 @@ def r18_9(ctx):
                     raise AnalysisError(f"Color.downgrade: the palette searched on the {src} -> {target} path is `{norm(c.func.value)}`, not resolved to a palette constant")
                 okp = norm(c.func.value) == pal
                 oka = len(c.args) == 1 and norm(c.args[0]) == want_arg
+                if not oka and len(c.args) == 1 and isinstance(c.args[0], ast.Call) and isinstance(c.args[0].func, ast.Attribute) and norm(c.args[0].func.value) == "self" and not c.args[0].args and not c.args[0].keywords:
+                    # a helper method that picks the triplet: every return of it that is consistent with the source kind must be the wanted triplet
+                    h = ctx.repo.cls("color:Color").method(c.args[0].func.attr)
+                    if h is None:
+                        raise AnalysisError(f"Color.downgrade: helper `{norm(c.args[0])}` not found")
+                    try:
+                        HP = [resolve(hp) for hp in paths_of(h.node)]
+                    except Unsupported as u:
+                        raise AnalysisError(f"Color.{h.node.name}: outside the path normal form ({u})")
+                    hs = select(HP, {"self.system == ColorSystem.TRUECOLOR": src == "TRUECOLOR", "self.system != ColorSystem.TRUECOLOR": src != "TRUECOLOR", "self.system == ColorSystem.EIGHT_BIT": src == "EIGHT_BIT"})
+                    hrets = [e_[1] for hp in hs for e_ in hp if e_[0] == "return"]
+                    if not hrets:
+                        raise AnalysisError(f"Color.{h.node.name}: no return consistent with a {src} source")
+                    oka = all(r_ == want_arg for r_ in hrets)
+                    if not oka:
+                        ctx.violation(f.fq, short(c), where, f"{src} -> {target}: the helper `{norm(c.args[0])}` hands the palette search {sorted(set(hrets))} instead of `{want_arg}`")
+                        continue
                 if not okp:
                     ctx.violation(f.fq, short(c), where, f"{src} -> {target}: the search runs over `{norm(c.func.value)}`, not over {pal}")
                 elif not oka:
